@@ -253,7 +253,7 @@ Section NoPanic.
       unfold get_singleton. rewrite (FactoryBasics_get_lookup_false (reg st2) n).
       destruct (match alookup n (L1 (reg st2)) with Some v => Some v | None => alookup n (L2 (reg st2)) end) as [e|].
       + destruct w as [wv|].
-        * destruct (stale_dependents vt st2 n); split; try exact I; intros st' v' H; inversion H; subst; apply Hfin.
+        * destruct (stale_dependents vt st2 n _); split; try exact I; intros st' v' H; inversion H; subst; apply Hfin.
         * split; [exact I|]. intros st' v' H; inversion H; subst; apply Hfin.
       + split; [exact I|]. intros st' v' H; inversion H; subst; apply Hfin.
   Qed.
